@@ -87,8 +87,11 @@ type Variant struct {
 	// PRNG seeded by SchedSeed. With the shipped code (one reading goroutine) this
 	// changes nothing; with code that reads in several goroutines it puts their
 	// interleaving under the simulator's control.
-	GateReads bool   `json:"gate_reads,omitempty"`
-	SchedSeed uint64 `json:"sched_seed,omitempty"`
+	// StdoutFailAfter > 0: the command's stdout accepts that many bytes and then fails
+	// (a closed pipe). Command-level runs only.
+	StdoutFailAfter int    `json:"stdout_fail_after,omitempty"`
+	GateReads       bool   `json:"gate_reads,omitempty"`
+	SchedSeed       uint64 `json:"sched_seed,omitempty"`
 }
 
 // Violation describes what a check found.
